@@ -903,7 +903,7 @@ func genAction(t *rapid.T, n string) Action {
 	case "boundary":
 		return Action{Kind: "boundary", Ms: 4999, Us: rapid.IntRange(-3000, 4000).Draw(t, n+"Us")}
 	case "slow":
-		return Action{Kind: "slow", Ms: 1000}
+		return Action{Kind: "slow", Ms: rapid.SampledFrom([]int{1000, 3000}).Draw(t, n+"SlowMs")}
 	case "late":
 		return Action{Kind: "late", Ms: rapid.SampledFrom([]int{5500, 6500, 8000}).Draw(t, n+"Ms")}
 	case "drop":
@@ -956,6 +956,10 @@ func genBatch(t *rapid.T) Batch {
 	b.Scripts = append(b.Scripts,
 		Script{Steps: []Step{{Abmf: Action{Kind: "prompt"}, Reserve: Action{Kind: "prompt"}}, {Abmf: Action{Kind: "late", Ms: 6500}, Reserve: Action{Kind: "prompt"}, Final: true}, {Abmf: Action{Kind: "prompt"}, Reserve: Action{Kind: "prompt"}}}},
 		Script{Steps: []Step{{Abmf: Action{Kind: "prompt"}, Reserve: Action{Kind: "dupfail"}}, {Abmf: Action{Kind: "dupfail"}, Reserve: Action{Kind: "prompt"}}, {Abmf: Action{Kind: "prompt"}, Reserve: Action{Kind: "prompt"}}}})
+	// the tariff enquiry that opens the update is answered too late, and the reservation's own rating answer is slow
+	// enough to be still outstanding when that late answer arrives
+	b.Scripts = append(b.Scripts,
+		Script{Steps: []Step{{Abmf: Action{Kind: "prompt"}, Reserve: Action{Kind: "slow", Ms: 3000}, Cost: Action{Kind: "late", Ms: 6500}}, {Abmf: Action{Kind: "prompt"}, Reserve: Action{Kind: "prompt"}}}})
 	// the tariff enquiry that opens the update is lost; the account peer then answers at once
 	b.Scripts = append(b.Scripts,
 		Script{Steps: []Step{{Abmf: Action{Kind: "prompt"}, Reserve: Action{Kind: "prompt"}, Cost: Action{Kind: "drop"}}, {Abmf: Action{Kind: "prompt"}, Reserve: Action{Kind: "prompt"}, Cost: Action{Kind: "slow", Ms: 3000}}}})
